@@ -51,7 +51,7 @@ def make_case(cid, rnd):
     used_groups, used_sdo = set(), set()
     coes = [i for i, d in enumerate(devs) if d["kind"] == "coe"]
     for _ in range(ntasks):
-        kinds = ["register_read", "register_read_cancel"]
+        kinds = ["register_read", "register_read_cancel", "slice_hold"]
         free_groups = [g for g in range(min(groups, ndev)) if g not in used_groups]
         if free_groups:
             kinds += ["tx_rx", "tx_rx"]
@@ -65,6 +65,8 @@ def make_case(cid, rnd):
             tasks.append(dict(op="tx_rx", group=g, cycles=rnd.randint(2, 6)))
         elif k == "register_read_cancel":
             tasks.append(dict(op="register_read_cancel", device=rnd.randrange(ndev), reg=rnd.choice([0x0010, 0x0130, 0x0000]), count=rnd.randint(1, 4)))
+        elif k == "slice_hold":
+            tasks.append(dict(op="slice_hold", device=rnd.randrange(ndev), reg=rnd.choice([0x0010, 0x0000, 0x0008]), count=rnd.randint(1, 3), hold=rnd.randint(1, 6)))
         elif k == "register_read":
             tasks.append(dict(op="register_read", device=rnd.randrange(ndev), reg=rnd.choice([0x0010, 0x0130, 0x0000, 0x0008]), count=rnd.randint(2, 6)))
         elif k == "sdo_read":
@@ -78,6 +80,11 @@ def make_case(cid, rnd):
             tasks.append(dict(op="sdo_write", device=d, index=0x2001, sub=0, value=[rnd.randint(0, 200), rnd.randint(0, 255)], count=rnd.randint(2, 3)))
     enough = next(f for f in (1, 2, 4, 8, 16) if f >= len(tasks))
     frames = rnd.choice([enough, enough, 8, 16, 2])
+    # a task that keeps a response view needs a second slot for what it does meanwhile: such cases always get a slot for
+    # everything that can be claimed at a time (the "just too few slots" cases are the ones without held views)
+    holders = sum(1 for t in tasks if t["op"] == "slice_hold")
+    if holders:
+        frames = max(frames, next(f for f in (2, 4, 8, 16) if f >= len(tasks) + holders))
     return dict(id=cid, devices=devs, groups=groups, frames=frames, frame_data=rnd.choice([1100, 1100, 128, 64, 40, 32]), tasks=tasks,
                 schedule_seed=rnd.randint(1, 1 << 30), latency_us=sorted([rnd.randint(0, 500), rnd.randint(0, 500)]))
 
